@@ -13,7 +13,9 @@ import vlib
 PROP = 'C12'
 HEADER = ('From Coq Require Import List NArith Bool Arith.\nImport ListNotations.\n'
           'From VDrv Require Import Queue Handoff QueueRank.\nOpen Scope N_scope.\n')
-COQ_TARGETS = ['props/C12.vo', 'drv/QueueRank.vo']
+UHEADER = ('From Coq Require Import List NArith Bool Arith.\nImport ListNotations.\n'
+           'From VDrv Require Import MultiReq MultiReqCheck.\n')
+COQ_TARGETS = ['props/C12.vo', 'drv/QueueRank.vo', 'drv/MultiReqCheck.vo']
 
 
 def monitor(case):
@@ -80,6 +82,28 @@ def copy_monitor(c):
         return 'queue idle but IsRunning: ' + c['idle_running']
     if c.get('bad_data'):
         return 'queues are not isolated (data): ' + c['bad_data']
+    return None
+
+
+def unified_monitor(u):
+    """unified mode (hand-ticked driver, commands with one request per member GPU of a unified device): None or a
+    description.  The Go side judges every request at the moment it is sent and every quiet point against the FIFO
+    reference; the request log is re-counted here: exactly one LaunchKernelReq per (queue, command, member GPU)."""
+    if u.get('violation'):
+        return 'commands of a queue take effect one at a time, once, in order: ' + u['violation']
+    if u.get('panic'):
+        return 'the driver panicked in a run with multi-request commands: %s' % u['panic']
+    want = collections.Counter()
+    for q, uq in enumerate(u['queues']):
+        for k, kind in enumerate(uq['prog']):
+            for i in range(0 if kind == 'noop' else len(u['members']) if (kind == 'unified' and uq['gpu'] == 0) else 1):
+                want[(q, k, i)] = 1
+    got = collections.Counter((r[0], r[1], r[2]) for r in u.get('sent') or [])
+    if got != want:
+        extra = sorted((got - want).items())
+        miss = sorted((want - got).items())
+        return ('commands of a queue take effect once: the LaunchKernelReq the driver sent are not exactly one per (queue, command, '
+                'member GPU): sent more than once %s, never sent %s' % (extra[:4], miss[:4]))
     return None
 
 
@@ -273,6 +297,77 @@ def main(argv):
                            'event %d of history %d differs' % (k, i), 'case': [hc], 'first_diverging_event': k, 'log': hlog[-2000:]},
                           nofail=True, text='model/implementation mismatch at hand-ticked history %d event %d' % (i, k))
             return rep.finish()
+    # ---- unified mode: commands with several outstanding requests (one LaunchKernelReq per member GPU of a unified device)
+    if not replay_file or (src and src[0].get('unified')):
+        if replay_file:
+            inp = os.path.join(vlib.BUILD, 'c12_%d.uni.json' % os.getpid())
+            json.dump(src, open(inp, 'w'))
+            unis, log = run_impl(binary, ['--replay', inp])
+            os.remove(inp)
+        else:
+            ucorpus = os.path.join(vlib.ROOT, 'corpus', PROP, 'unified.json')
+            unis0, log = run_impl(binary, ['--replay', ucorpus]) if os.path.exists(ucorpus) else ([], '')
+            unis, log = run_impl(binary, ['--unified', '800' if thorough else '120', '--seed', str(vlib.seed())]) if unis0 is not None else (None, log)
+            if unis is not None:
+                unis = unis0 + unis
+        if unis is None:
+            rep.obligation('unified-mode run', False)
+            rep.violation({'broken': 'harness unified-mode run failed', 'log': log[-4000:]}, nofail=True,
+                          text='harness unified-mode run failed: ' + (log.strip().split('\n') or [''])[0][:200])
+            return rep.finish()
+        ubad = [(u, unified_monitor(u)) for u in unis]
+        ubad = [(u, m) for u, m in ubad if m]
+        rep.obligation('unified mode: %d hand-ticked runs on a unified device of 2-4 member GPUs played by the harness (%d multi-request '
+                       'commands, %d replies delivered one or two per quiet point in random / first-sent-first / last-sent-first order, %d '
+                       'quiet points with a command partly answered, further commands behind it, second queues on the unified device and '
+                       'on a plain GPU of another context): requests sent = exactly one per (command, member GPU), nothing of a later '
+                       'command or a second copy while replies are outstanding, a command leaves its queue exactly at its last reply, '
+                       'completion order = enqueue order, every queue drains'
+                       % (len(unis), sum(1 for u in unis for q in u['queues'] for k in q['prog'] if k == 'unified'),
+                          sum(u.get('answers', 0) for u in unis), sum(u.get('partial', 0) for u in unis)), not ubad)
+        comp = [u for u in unis if u.get('coq')]
+        uok, umism, ulog = vlib.eval_cases(PROP, UHEADER, [u['coq'] for u in comp], shard_size=40, checker='group_mismatches', ty='gcase')
+        rep.obligation('correspondence (multi-request commands): %d single-queue runs, %d quiet points agree with coq/drv/MultiReq.v '
+                       '(queue length, IsRunning, length of the head command\'s request list, requests sent so far; every group of '
+                       'replies + start enabled in the model, no start left enabled at a quiet point)'
+                       % (len(comp), sum(len(u['events']) for u in comp)), uok and not umism)
+        rep.coverage['unified_mode'] = {'runs': len(unis), 'members': dict(collections.Counter(len(u['members']) for u in unis)),
+                                        'multi_request_commands': sum(1 for u in unis for q in u['queues'] for k in q['prog'] if k == 'unified'),
+                                        'answers': sum(u.get('answers', 0) for u in unis),
+                                        'quiet_points_with_partly_answered_command': sum(u.get('partial', 0) for u in unis),
+                                        'runs_with_two_queues': sum(1 for u in unis if len(u['queues']) > 1),
+                                        'compared_with_model': len(comp), 'model_mismatches': len(umism), 'failures': len(ubad)}
+        if ubad and not replay_file:
+            # shrink: fewer members, fewer queues, shorter programs, plain answer order - the smallest variant that still fails
+            u0 = ubad[0][0]
+            cands = []
+            for nm in range(2, len(u0['members']) + 1):
+                for nqs in range(1, len(u0['queues']) + 1):
+                    for ln in range(1, max(len(q['prog']) for q in u0['queues']) + 1):
+                        for pol in sorted({'first', u0['policy']}):
+                            cands.append({'unified': True, 'name': u0.get('name', ''), 'seed': u0['seed'], 'ngpu': u0['ngpu'],
+                                          'members': u0['members'][:nm], 'policy': pol, 'batch': u0['batch'] and pol != 'first',
+                                          'queues': [{'gpu': q['gpu'], 'prog': q['prog'][:ln]} for q in u0['queues'][:nqs]]})
+            cands.sort(key=lambda c: (len(c['members']) + sum(len(q['prog']) for q in c['queues']) + len(c['queues']), c['policy'] != 'first'))
+            inp = os.path.join(vlib.BUILD, 'c12_%d.uni.json' % os.getpid())
+            json.dump(cands[:200], open(inp, 'w'))
+            small, _ = run_impl(binary, ['--replay', inp])
+            os.remove(inp)
+            for u in small or []:
+                m = unified_monitor(u)
+                if m:
+                    ubad = [(u, m)]
+                    break
+        cbad += ubad
+        if not cbad and (umism or not uok):
+            i, k = umism[0] if umism else (0, 0)
+            uc = dict(comp[i]) if comp else {}
+            uc.pop('coq', None)
+            rep.violation({'property': PROP, 'broken': 'correspondence between coq/drv/MultiReq.v and the hand-ticked driver (unified mode): '
+                           'quiet point %d of run %d differs; theorems multi_request_* of props/C12.v no longer speak about this code' % (k, i),
+                           'case': [uc], 'first_diverging_event': k, 'log': ulog[-2000:]},
+                          nofail=True, text='model/implementation mismatch at unified-mode run %d quiet point %d' % (i, k))
+            return rep.finish()
     if cbad:
         c, msg = cbad[0]
         c = dict(c)
@@ -296,7 +391,7 @@ def main(argv):
         corpus = []
         cdir = os.path.join(vlib.ROOT, 'corpus', PROP)
         for p in sorted(os.listdir(cdir)) if os.path.isdir(cdir) else []:
-            corpus += json.load(open(os.path.join(cdir, p)))
+            corpus += [c for c in json.load(open(os.path.join(cdir, p))) if not c.get('unified')]
         if corpus:
             out, log = replay_cases(binary, [strip(c) for c in corpus])
             cases = out or []
